@@ -32,7 +32,7 @@ ASSUMPTIONS = [
 ]
 PROBES = ["faulty_link_before_injection", "threaded.runs", "threaded.preempted_in_proxy", "kind.error", "kind.rstack", "kind.silent", "kind.lost", "kind.eof", "kind.close", "workload.idle", "workload.one", "workload.queued",
           "workload.reset", "workload.startup", "reported", "reported_twice", "silent_detected_by_retries", "silent_during_reset_timeout",
-          "data_received_raised", "inject_at_timer_deadline", "calls_in_progress_at_injection", "sched.batch", "sched.reorder", "sched.join"]
+          "data_received_raised", "inject_at_timer_deadline", "calls_in_progress_at_injection", "caller_cancelled_after_injection", "sched.batch", "sched.reorder", "sched.join"]
 
 WORKLOADS = ("idle", "one", "queued", "reset", "startup")
 KINDS = ("error", "rstack", "silent", "lost", "eof", "close")
@@ -63,6 +63,10 @@ def plan(tier):
                     codes = (None,)
                 for c in codes:
                     sweeps.append(("inject", {"workload": w, "kind": kind, "code": c, "at": at, "sched": False}))
+                if kind == "silent" and w in ("idle", "one", "queued"):
+                    # the callers give up (are cancelled) while the link layer is still retrying: the failure must be reported all the same
+                    for ca in (2.0, 12.0):
+                        sweeps.append(("inject", {"workload": w, "kind": kind, "code": None, "at": at, "sched": False, "cancel_after": ca}))
     return {
         "sweeps": sweeps,
         "exhaustive": f"failure kind x code x {npts} injection instants (just before/after every wire event of the 5 scripted workloads), each event in its own loop iteration",
@@ -78,7 +82,7 @@ def run(scenario, params, tape, detail=False):
     if scenario == "threaded":
         return run_threaded_one(params, tape, detail)
     if scenario == "inject":
-        return run_one(params["workload"], params["kind"], params["code"], params["at"], tape, params.get("sched", True), detail)
+        return run_one(params["workload"], params["kind"], params["code"], params["at"], tape, params.get("sched", True), detail, cancel_after=params.get("cancel_after"))
     w = WORKLOADS[tape.draw(len(WORKLOADS), "workload")]
     kind = KINDS[tape.draw(len(KINDS), "kind")]
     code = None
@@ -89,7 +93,10 @@ def run(scenario, params, tape, detail=False):
     return run_one(w, kind, code, ("draw",), tape, True, detail, faulty=(scenario == "faulty"))
 
 
-def run_one(workload, kind, code, at, tape, sched, detail, dry=False, faulty=False):
+CANCEL_AFTER = (0.3, 1.0, 2.5, 6.0, 11.0, 13.0)
+
+
+def run_one(workload, kind, code, at, tape, sched, detail, dry=False, faulty=False, cancel_after=None):
     sock = workload == "startup"
     if faulty:
         # link faults (and read chunking, NCP window) until the injection; the failure itself is then delivered over a clean line
@@ -249,6 +256,20 @@ def run_one(workload, kind, code, at, tape, sched, detail, dry=False, faulty=Fal
         if dry:
             await asyncio.sleep(8.0)
             return
+        if at == ("draw",) and tape.draw(2, "cancel?"):
+            ca = CANCEL_AFTER[tape.draw(len(CANCEL_AFTER), "cancel_after")]
+        else:
+            ca = cancel_after
+        if ca is not None:
+            # callers that give up: every call still pending `ca` seconds after the injection is cancelled (some of them, in random mode)
+            def cancel_callers():
+                pend = [c for c in calls if c["t_end"] is None and c["name"] != "late-nop"]
+                for c in pend:
+                    if cancel_after is not None or tape.draw(3, "cancel_which"):
+                        probe("caller_cancelled_after_injection")
+                        c["task"].cancel()
+
+            loop.external(st["t_inj"] + ca, cancel_callers, group=None)
         await asyncio.sleep(0.2)
         st["probe_writes"] = len(rig.host_writes)
         st["probe_running"] = rig.ezsp.is_ezsp_running
@@ -260,6 +281,7 @@ def run_one(workload, kind, code, at, tape, sched, detail, dry=False, faulty=Fal
         await asyncio.sleep(45.0)
         # a second probe, well after everything settled
         st["late_writes"] = len(rig.host_writes)
+        st["late_t"] = loop.time()
         pc2 = tracked("late-nop", ez.nop())
         await asyncio.sleep(30.0)
         st["late_outcome"] = pc2["outcome"]
@@ -305,6 +327,17 @@ def run_one(workload, kind, code, at, tape, sched, detail, dry=False, faulty=Fal
                 if any(v >= 5 for v in cnt.values()):
                     detected_by = max(tt for (tt, frm, retx, payload) in rig.mon.data_tx) + 3.3
                     probe("silent_detected_by_retries")
+                # The first DATA frame written after the silence began is never acknowledged: the link layer keeps retransmitting it whatever
+                # its caller does (a cancelled caller does not take the frame back), so its retry budget is exhausted - and the failure
+                # reported - no later than five maximal acknowledgement timeouts after its first transmission.
+                first = [tt for (tt, frm, retx, payload) in rig.mon.data_tx if tt >= t_inj and not retx]
+                if first:
+                    t1 = first[0]
+                    okrep = [r for r in reports if r[0] <= t1 + 16.0 + 0.5]
+                    if not okrep and loop.time() > t1 + 17.0:
+                        n1 = sum(1 for (tt, frm, retx, payload) in rig.mon.data_tx if tt >= t1 and tt <= t1 + 16.5)
+                        viol.append(("C10.report", "silent-not-detected-in-time", f"{tag}: the first DATA frame written after the NCP went silent (t={t1:.4f}) was transmitted "
+                                     f"{n1} time(s) and no controller-reset request arrived within the link timeout (5 x 3.2 s); reports {[round(r[0], 3) for r in reports]}"))
             pre_closed = bool(reports and reports[0][0] < t_inj)
             if detected_by is not None and not rep_after and not pre_closed:
                 # accepted alternative for a silent NCP during a reset handshake: handled below; for the other kinds: violation
@@ -316,6 +349,8 @@ def run_one(workload, kind, code, at, tape, sched, detail, dry=False, faulty=Fal
                 timed_out = [c for c in rc if c["outcome"] and c["outcome"][0] == "raised" and isinstance(c["outcome"][1], TimeoutError)]
                 if timed_out:
                     probe("silent_during_reset_timeout")
+                elif [c for c in rc if c["outcome"] and c["outcome"][0] == "cancelled"]:
+                    probe("silent_during_reset_caller_gave_up")  # the harness cancelled the reset call: EZSP stays stopped, nothing can be sent or detected
                 elif not rep_after:
                     viol.append(("C10.report", "silent-undetected", f"{tag}: NCP went silent; no DATA frame exhausted its retries, no reset call timed out and nothing was reported (calls {[(c['name'], c['outcome'] and c['outcome'][0]) for c in calls]})"))
             if rep_after:
@@ -330,8 +365,8 @@ def run_one(workload, kind, code, at, tape, sched, detail, dry=False, faulty=Fal
                     viol.append(("C10.silence", "write-after-report", f"{tag}: {len(late)} frame(s) written to the port after the report at t={tr:.4f}: {[(round(a, 4), b and b[0]) for a, b in late[:4]]}"))
                 # C10.stopped: commands issued after the report raise EzspError at once and write nothing
                 for nm, wb, wa, oc in (("probe", "probe_writes", "probe_writes_after", st.get("probe_immediate")), ("late", "late_writes", "late_writes_after", st.get("late_outcome"))):
-                    if nm == "probe" and st["probe_t"] < tr:
-                        continue
+                    if st[nm + "_t"] < tr:
+                        continue  # issued before the report
                     if oc is None or oc[0] != "raised" or not isinstance(oc[1], EzspError):
                         viol.append(("C10.stopped", "command-after-report", f"{tag}: a command issued after the report did not raise EzspError immediately: {oc!r}"))
                     if st.get(wa, 0) != st.get(wb, 0):
@@ -493,6 +528,7 @@ def run_threaded_one(params, tape, detail=False):
         pc = tracked("probe-nop", ez.nop())
         await asyncio.sleep(45.0)
         st["late_writes"] = len(rig.host_writes)
+        st["late_t"] = loop.time()
         pc2 = tracked("late-nop", ez.nop())
         await asyncio.sleep(30.0)
         st["late_outcome"] = pc2["outcome"]
